@@ -62,14 +62,32 @@ def forbidden_scan():
     return hits
 
 
-def coq_obligations(pid):
+def coq_obligations(pid, _skip_extra=False):
     """Re-check theories/Props/<pid>.v with coqc (the kernel re-checks every property theorem
     of the file on every run) and pair each `Print Assumptions` with what it printed."""
+    import glob
     src = os.path.join(COQ, "theories", "Props", pid + ".v")
     res = {"file": os.path.relpath(src, ROOT), "theorems": [], "ok": False, "log": ""}
     if not os.path.exists(src):
         res["log"] = "no property file"
         return res
+    extra = sorted(glob.glob(os.path.join(COQ, "theories", "Props", pid + "_*.v")))
+    if extra and not _skip_extra:
+        # further property files of the same property (e.g. Props/C01_walk.v): checked the same way and merged
+        parts = [coq_obligations(pid, _skip_extra=True)] + [_obligations_of(f) for f in extra]
+        out = parts[0]
+        for q in parts[1:]:
+            out["theorems"] += q["theorems"]; out["ok"] = out["ok"] and q["ok"]; out["log"] += q["log"][-500:]
+            out.setdefault("examples", []); out["examples"] += q.get("examples", [])
+            out.setdefault("unprinted", []); out["unprinted"] += q.get("unprinted", [])
+            out["file"] += " + " + q["file"]
+        return out
+    return _obligations_of(src)
+
+
+def _obligations_of(src):
+    pid = os.path.basename(src)[:-2]
+    res = {"file": os.path.relpath(src, ROOT), "theorems": [], "ok": False, "log": ""}
     txt = strip_coq_comments(open(src).read())
     names = re.findall(r"Print Assumptions\s+([A-Za-z0-9_']+)\s*\.", txt)
     stated = re.findall(r"\b(?:Theorem|Corollary|Lemma)\s+([A-Za-z0-9_']+)", txt)
@@ -255,6 +273,8 @@ class Ctx:
 
     # -- finish -----------------------------------------------------------------
     def finish(self, obligations, level="proof", assumptions=None, trusted=None, explanation=""):
+        if level not in ("exploration", "fault_enumeration", "model_checking", "proof", "translation_validation", "other"):
+            self.notes.append({"level_as_written_by_engine": level}); level = "proof" if level.startswith("proof") else "other"
         ths = obligations.get("theorems", [])
         n_obl = len(ths)
         n_dis = sum(1 for t in ths if assumptions_acceptable(t))
